@@ -132,11 +132,13 @@ class C10(flow.Spec):
         for _ in range(5):
             rc, out, err = core.sh([hb], timeout=600, env={"TSAN_OPTIONS": "halt_on_error=1:exitcode=66"})
             runs += 1
-            if rc == 3:
-                inconclusive += 1
-            elif rc != 0:
-                bad = (rc, (out + err)[-3000:])
+            txt = out + err
+            if rc == 0:
+                continue
+            if "ThreadSanitizer: data race" in txt or "CHECK failed" in txt or "ThreadSanitizer: lock-order" in txt:
+                bad = (rc, txt[-3000:])
                 break
+            inconclusive += 1      # watchdog, sanitizer start-up problems, resource limits: not a verdict
         if bad is not None:
             path = ctx.write_replay(f"tsan_{ctx.tier}_{ctx.seed}.txt",
                                     ["kind: real-thread ThreadSanitizer run failed (data race / failed check)",
